@@ -121,7 +121,7 @@ func ruleGuardRoot(c *Ctx, r *Rep) {
 		if !strings.Contains(fn.Pkg.Pkg.Path(), "filesystem") {
 			continue
 		}
-		a := &atomizer{c, pv, fn}
+		a := &atomizer{c: c, pv: pv, fn: fn}
 		for _, b := range fn.Blocks {
 			for _, ins := range b.Instrs {
 				st, ok := ins.(*ssa.Store)
@@ -395,7 +395,7 @@ func ruleGuardPemRest(c *Ctx, r *Rep) {
 		return
 	}
 	fk := c.FuncKey(reader)
-	a := &atomizer{c, c.newProv(), reader}
+	a := &atomizer{c: c, pv: c.newProv(), fn: reader}
 	// the error return that does not stem from a parse call: its condition from the decode block
 	found := false
 	for _, ret := range returnsOf(reader) {
